@@ -294,6 +294,28 @@ func c01RunTransports(c *kit.Ctx) {
 		// shard processes would otherwise share groups)
 		if c.Shard == 0 {
 			start("multicast", false, func(r *c01tRec) {
+				base := srv.URL(path)
+				// An earlier generation of multicast members: one viewer plays and leaves before the viewer that is
+				// judged joins. The proxy is shared per stream and restarted for every new group of members;
+				// "what a consumer receives never depends on ... when others attach or detach".
+				if g1, err := kit.DialRTSP(srv.Addr); err == nil {
+					ok := true
+					for _, st := range [][2]string{{"DESCRIBE", base}, {"SETUP", base + "/streamid=0"}, {"PLAY", base}, {"TEARDOWN", base}} {
+						h := map[string]string{}
+						if st[0] == "SETUP" {
+							h["Transport"] = "RTP/AVP;multicast"
+						}
+						if resp, err := g1.Do(st[0], st[1], h, ""); err != nil || resp.Code != 200 {
+							ok = false
+							break
+						}
+					}
+					g1.Close()
+					if ok {
+						c.Count("multicast_earlier_generation_played_and_left", 1)
+						time.Sleep(150 * time.Millisecond) // let the server finish the first member's teardown (not verdict-relevant)
+					}
+				}
 				cl, err := kit.DialRTSP(srv.Addr)
 				if err != nil {
 					r.fail("dial")
@@ -301,7 +323,6 @@ func c01RunTransports(c *kit.Ctx) {
 					return
 				}
 				defer cl.Close()
-				base := srv.URL(path)
 				if resp, err := cl.Do("DESCRIBE", base, nil, ""); err != nil || resp.Code != 200 {
 					r.fail("handshake DESCRIBE")
 					ready <- r.name
@@ -544,6 +565,12 @@ func c01RunTransports(c *kit.Ctx) {
 			c.Count("transport_packets_"+r.name, int64(len(r.ids)))
 			if len(r.ids) > 0 {
 				c.Note("first_last_"+r.name, fmt.Sprintf("%d..%d holes=%d sentinel=%d", r.ids[0], last, holes, sentinel))
+			}
+			if !r.reliable && len(r.ids) == 0 {
+				// datagram transports may lose packets, but a member that attached successfully and is given nothing at
+				// all while every other transport is served is not "loss"
+				c.Violation("C01:transport:nothing-delivered-to-attached-consumer:"+r.name, detail)
+				continue
 			}
 			if r.reliable {
 				if len(r.ids) == 0 || last < sentinel {
